@@ -173,7 +173,7 @@ Proof.
 Qed.
 
 (* ---------------------------------------------------------------- seq_i[idx] = seq_j, any j *)
-Lemma set_idx_seq_full st i ix j ps : reachable st -> is_live st i = true -> is_live st j = true ->
+Lemma set_idx_seq_full st i ix j ps : wf st -> is_live st i = true -> is_live st j = true ->
   positions (length (offs (getseq st i))) ix = Ok ps ->
   let dst := combine (pick 0 (offs (getseq st i)) ps) (pick 0 (lens (getseq st i)) ps) in
   let bi := sbuf (getseq st i) in
@@ -188,7 +188,7 @@ Lemma set_idx_seq_full st i ix j ps : reachable st -> is_live st i = true -> is_
     V st' x q = if sbuf (getseq st x) =? bi then fst a (cell st x q) else V st x q.
 Proof.
   intros Rch L Lj P dst bi jb H1 H2 a.
-  pose proof (reachable_wf st Rch) as W. cbv zeta. unfold step. rewrite L, Lj, P.
+  pose proof (ok_wf st Rch) as W. cbv zeta. unfold step. rewrite L, Lj, P.
   apply is_live_lt in L. apply is_live_lt in Lj. destruct (wf_seq _ W i L) as (_ & S2 & _).
   rewrite pick_length, H1, Nat.eqb_refl. cbn [negb]. rewrite H2, Nat.eqb_refl. cbn [negb].
   apply positions_bound in P.
@@ -201,7 +201,7 @@ Proof.
 Qed.
 
 (* ---------------------------------------------------------------- seq_i <op>= seq_j, any j *)
-Lemma op_seq_inplace_full st i g j dt : reachable st -> is_live st i = true -> is_live st j = true ->
+Lemma op_seq_inplace_full st i g j dt : wf st -> is_live st i = true -> is_live st j = true ->
   length (lens (getseq st i)) = length (lens (getseq st j)) ->
   sum (lens (getseq st i)) = sum (lens (getseq st j)) ->
   offs (getseq st i) <> [] ->
@@ -216,7 +216,7 @@ Lemma op_seq_inplace_full st i g j dt : reachable st -> is_live st i = true -> i
     V st' x q = if sbuf (getseq st x) =? bi then fst a (cell st x q) else V st x q.
 Proof.
   intros Rch L Lj H1 H2 NE bi jb a.
-  pose proof (reachable_wf st Rch) as W. cbv zeta. unfold step. rewrite L, Lj. cbn [andb].
+  pose proof (ok_wf st Rch) as W. cbv zeta. unfold step. rewrite L, Lj. cbn [andb].
   apply is_live_lt in L. apply is_live_lt in Lj.
   rewrite H1, Nat.eqb_refl. cbn [negb]. rewrite H2, Nat.eqb_refl. cbn [negb].
   destruct (offs (getseq st i)) as [|o0 os0] eqn:EO; [congruence|]. rewrite <- EO.
@@ -308,7 +308,7 @@ Proof.
     rewrite E. unfold rows_of. rewrite P26 by auto. reflexivity.
 Qed.
 
-Lemma op_seq_copy_full st i g j dt : reachable st -> is_live st i = true -> is_live st j = true ->
+Lemma op_seq_copy_full st i g j dt : wf st -> is_live st i = true -> is_live st j = true ->
   length (lens (getseq st i)) = length (lens (getseq st j)) ->
   sum (lens (getseq st i)) = sum (lens (getseq st j)) ->
   offs (getseq st i) <> [] ->
@@ -321,7 +321,7 @@ Lemma op_seq_copy_full st i g j dt : reachable st -> is_live st i = true -> is_l
   end.
 Proof.
   intros Rch L Lj H1 H2 NE.
-  pose proof (reachable_wf st Rch) as W. cbv zeta. unfold step. rewrite L, Lj. cbn [andb].
+  pose proof (ok_wf st Rch) as W. cbv zeta. unfold step. rewrite L, Lj. cbn [andb].
   apply is_live_lt in L. apply is_live_lt in Lj.
   rewrite H1, Nat.eqb_refl. cbn [negb]. rewrite H2, Nat.eqb_refl. cbn [negb].
   destruct (offs (getseq st i)) as [|o0 os0] eqn:EO; [congruence|]. clear NE EO o0 os0.
